@@ -151,4 +151,15 @@ def run (cfg : Config) (inp : Input) : Except String Result :=
   | .error e => .error e
   | .ok (r, _) => .ok r
 
+/-- successive calls on ONE method-configuration object: the only state a call reads before writing it is
+    the competition strategy's seen-set.  A call that fails either fails before the greedy pass (seen-set
+    untouched) or in `zip(*[])` after `self.reset()`; from an empty seen-set both leave it empty, and that is
+    the only situation `callSeq … []` ever reaches (`pipeline_calls_independent`). -/
+def callSeq (cfg : Config) : List String → List Input → List (Except String Result)
+  | _, [] => []
+  | seen, i :: rest =>
+    match runFrom cfg i seen with
+    | .ok (r, seen') => .ok r :: callSeq cfg seen' rest
+    | .error e => .error e :: callSeq cfg seen rest
+
 end PgFdr.Pipeline
